@@ -25,6 +25,15 @@ DATETIME_P_FORMAT = '%Y-%m-%dT%H:%M:%S'
 TIME_P_FORMAT = TIME_F_FORMAT = TIME_FORMAT
 
 
+def _fraction(obj):
+    # sub-second part, written only when present
+    return '.{:06d}'.format(obj.microsecond) if obj.microsecond else ''
+
+
+def _with_fraction(fmt, value):
+    return fmt + '.%f' if '.' in value else fmt
+
+
 class CommonJSONDecoder(json.JSONDecoder):
     """
     Common JSON Encoder
@@ -41,7 +50,7 @@ class CommonJSONDecoder(json.JSONDecoder):
         if 'type{time}' in obj:
             try:
                 return datetime.datetime \
-                    .strptime(obj['type{time}'], TIME_P_FORMAT) \
+                    .strptime(obj['type{time}'], _with_fraction(TIME_P_FORMAT, obj['type{time}'])) \
                     .time()
             except ValueError:
                 pass
@@ -49,7 +58,7 @@ class CommonJSONDecoder(json.JSONDecoder):
             try:
                 (isoformat, tzofs, tzname) = obj['type{datetime}']
                 parsed = datetime.datetime \
-                    .strptime(isoformat, DATETIME_P_FORMAT)
+                    .strptime(isoformat, _with_fraction(DATETIME_P_FORMAT, isoformat))
                 if tzofs is not None:
                     tzofs = datetime.timedelta(seconds=tzofs)
                     return datetime.datetime \
@@ -96,10 +105,10 @@ class CommonJSONEncoder(json.JSONEncoder):
         if isinstance(obj, decimal.Decimal):
             return {'type{decimal}': str(obj)}
         elif isinstance(obj, datetime.time):
-            return {'type{time}': obj.strftime(TIME_F_FORMAT)}
+            return {'type{time}': obj.strftime(TIME_F_FORMAT) + _fraction(obj)}
         elif isinstance(obj, datetime.datetime):
             return {'type{datetime}':
-                    (obj.strftime(DATETIME_F_FORMAT),
+                    (obj.strftime(DATETIME_F_FORMAT) + _fraction(obj),
                      int(obj.utcoffset().total_seconds()) if obj.utcoffset() is not None else None,
                      obj.tzname())}
         elif isinstance(obj, datetime.date):
